@@ -7,10 +7,13 @@
     >= 1 and every sequence of positioned writes and reads -- positions are arbitrary, so every
     interleaving of access handles sharing the element is covered; (3) promotion of existing data
     (HLcreate / HLconvert on a contiguous element) preserves content.
-    The contiguous path of hfile.c (Hseek/Hread/Hwrite/Htrunc bookkeeping, append-at-EOF decision) and
-    external elements are decided by the correspondence against S only (see DESIGN.md C01). *)
+    (4) the contiguous path of hfile.c (HFileModel.v: allocation at the end of the file, Hwrite with the
+    append-at-EOF versus promote decision, Hread, Htrunc, Hdupdd, Hdeldd): extents never overlap, and (5) a
+    successful write / read / truncation / duplication has exactly the effect the specification's byte-array
+    functions [write_at] / [read_at] describe, for every history.
+    Reopen (HTPstart) and external elements are decided by the correspondence against S only (DESIGN.md C01). *)
 From Coq Require Import ZArith List Bool.
-Require Import H4.EStoreSpec H4.HBlocksModel H4.HBlocksProofs H4.EStoreProofs H4.HFileModel H4.HFileProofs.
+Require Import H4.EStoreSpec H4.HBlocksModel H4.HBlocksProofs H4.EStoreProofs H4.HFileModel H4.HFileProofs H4.HFileRefine.
 Import ListNotations.
 Local Open Scope Z_scope.
 
@@ -113,7 +116,51 @@ Theorem read_after_write_contig : forall s k pos app bytes s' n,
 Proof. exact read_after_write_contig_lemma. Qed.
 Print Assumptions read_after_write_contig.
 
+(** (5) the contiguous path refines the byte-array specification.  Nothing at or beyond the end of the file has
+    ever been written, in any history, so a gap skipped over by seeking before an append reads as zeros *)
+Theorem zero_beyond_end : forall ops e x,
+  fend (fold_left fstep ops (finit e)) <= x -> img (fold_left fstep ops (finit e)) x = 0.
+Proof. exact zero_beyond_end_lemma. Qed.
+Print Assumptions zero_beyond_end.
+
+(** after ANY history of creations, allocations, writes, truncations, duplications and deletions, a successful
+    Hwrite (inside the element, or appending in place at the end of the file, possibly after seeking past the end)
+    turns the element's content into the specification's [write_at], gap settled to zero *)
+Theorem contig_write_refines_spec : forall ops e k pos app bytes s' n c,
+  0 <= e -> 0 <= pos -> Forall is_byte c -> Forall is_byte bytes ->
+  hwrite (fold_left fstep ops (finit e)) k pos app bytes = (s', WOk n) ->
+  content (fold_left fstep ops (finit e)) k = Some c ->
+  content s' k = Some (settle (write_at c pos bytes)).
+Proof. exact contig_history_write_refines_lemma. Qed.
+Print Assumptions contig_write_refines_spec.
+
+Theorem contig_read_refines_spec : forall s k pos n c,
+  content s k = Some c -> 0 <= pos -> 0 < n -> pos + n <= HFileModel.zlen c ->
+  hread s k pos n = Some (read_at c pos n).
+Proof. exact contig_read_refines_lemma. Qed.
+Print Assumptions contig_read_refines_spec.
+
+Theorem contig_trunc_refines_spec : forall s k len s' c,
+  htrunc s k len = Some s' -> content s k = Some c ->
+  content s' k = Some (firstn (Z.to_nat len) c).
+Proof. exact contig_trunc_refines_lemma. Qed.
+Print Assumptions contig_trunc_refines_spec.
+
+Theorem contig_dup_refines_spec : forall s nk ok s',
+  hdup s nk ok = Some s' -> content s' nk = content s ok /\ content s ok <> None.
+Proof. exact contig_dup_refines_lemma. Qed.
+Print Assumptions contig_dup_refines_spec.
+
 (** Non-vacuity *)
+Example contig_append_after_seek_past_end :
+  let s := fold_left fstep [FCreate (1,1) 2; FWrite (1,1) 0 true [7; 8]] (finit 202) in
+  content s (1,1) = Some [7; 8] /\
+  match hwrite s (1,1) 5 true [9; 10] with
+  | (s', WOk 2) => content s' (1,1) = Some [7; 8; 0; 0; 0; 9; 10] /\
+                   settle (write_at [7; 8] 5 [9; 10]) = [7; 8; 0; 0; 0; 9; 10] /\
+                   hread s' (1,1) 2 4 = Some [0; 0; 0; 9]
+  | _ => False end.
+Proof. vm_compute. repeat split. Qed.
 Example inv_holds_after_work :
   match hl_write (hl_new 4 2) 9 [1; 2; 3; 4; 5; 6] with
   | Some (st, n) => n = 6 /\ table_flags st = [[false; false]; [true; true]] /\
